@@ -4,7 +4,7 @@
 cd "$(dirname "$0")/.."
 ids="${@:-C01 C02 C03 C04 C05 C06 C07 C08 C09 C10 C11 C12 C13 C14 C15 C16 C17 C18 C19 C20}"
 bad=0; n=0
-for pd in benign/*/; do
+for pd in benign/${BENIGN_GLOB:-*}/; do
   name=$(basename $pd)
   d=$(mktemp -d /tmp/ben.XXXXXX)
   rsync -a --exclude .git /repo/ "$d/repo/"
